@@ -8,7 +8,7 @@ import ast
 import re
 
 from ..index import AnalysisError
-from ..norm import Canon, effects_of_event
+from ..norm import Canon, effects_of_event, effects_along
 from ..paths import Frame
 from .common import (bound_args, call_name, calls_to, enclosing_loops,
                      iteration_segments, short)
@@ -125,8 +125,8 @@ def check_node_loop(repo, canon, res, f, fr, loop, tasks_name, map_name, task_ca
         if how == 'raise':
             continue
         appends, stores, others = [], [], []
-        for e in seg:
-            for ef in effects_of_event(canon, e):
+        for e, _efs in effects_along(canon, seg):
+            for ef in _efs:
                 if ef.loc == tasks_name:
                     (appends if ef.kind == 'append' else others).append(ef)
                 elif ef.loc == map_name and ef.kind == 'store':
